@@ -38,7 +38,7 @@ def master_svg(k, variant, rng_vals):
 
 
 def one(job):
-    seed, = job
+    seed, nested = (job + (False,))[:2]
     import random
     from fontTools import ttLib
     from fontTools.varLib import instancer
@@ -47,7 +47,10 @@ def one(job):
     d = common.scratch_dir("c18")
     try:
         two_axes = rng.random() < 0.5
-        n_masters = 3 if two_axes else rng.choice([2, 3])
+        # `nested`: every master keeps its drawings in a directory of the SAME leaf name (regular/svg, bold/svg, other/svg), the common
+        # project layout; with three masters the intermediates of the second and third must still be kept apart
+        n_masters = 3 if (two_axes or nested) else rng.choice([2, 3])
+        sub = "/svg" if nested else ""
         vals = [(0, 0, 1.0), (rng.choice([4, 8]), rng.choice([2, 6]), rng.choice([1.2, 1.5])), (rng.choice([-4, 2]), rng.choice([3, -3]), rng.choice([0.8, 1.1]))]
         # locations: axes declared wght then wdth (non-alphabetical), masters differ per axis
         # non-integer coordinates are legal (registered wdth values 62.5 / 87.5 / 112.5, slnt -7.5 ...)
@@ -62,7 +65,7 @@ def one(job):
             # three glyphs; the first and the LAST have identical geometry (hence identical clip boxes) in every non-default master and
             # different geometry in the default one: non-adjacent glyphs sharing a box in some masters only
             third = master_svg(0, m, vals) if m > 0 else master_svg(0, 0, [(3, -2, 0.9)])
-            cli.write_svgs(d / nm, {"emoji_u1f600.svg": master_svg(0, m, vals), "emoji_u1f601.svg": master_svg(1, (m + 0) % len(vals), vals),
+            cli.write_svgs(d / (nm + sub), {"emoji_u1f600.svg": master_svg(0, m, vals), "emoji_u1f601.svg": master_svg(1, (m + 0) % len(vals), vals),
                                     "emoji_u1f602.svg": third})
         # reuse off: the twin glyphs would otherwise share an outline in some masters only, which makes the masters incompatible
         toml = ['family = "VF"', 'output_file = "VF.ttf"', 'color_format = "glyf_colr_1"', "clipbox_quantization = 1", "reuse_tolerance = -1"]
@@ -70,7 +73,7 @@ def one(job):
         if two_axes:
             toml.append('[axis.wdth]\nname = "Width"\ndefault = 100')
         for nm, loc in zip(names, locs):
-            toml.append(f'[master.{nm}]\nstyle_name = "{nm.title()}"\nsrcs = ["{nm}/*.svg"]\n[master.{nm}.position]\n' + "\n".join(f"{k} = {v}" for k, v in loc.items()))
+            toml.append(f'[master.{nm}]\nstyle_name = "{nm.title()}"\nsrcs = ["{nm}{sub}/*.svg"]\n[master.{nm}.position]\n' + "\n".join(f"{k} = {v}" for k, v in loc.items()))
         (d / "vf.toml").write_text("\n".join(toml) + "\n")
         rc, out = cli.nanoemoji(["--build_dir", d / "build", d / "vf.toml"], d)
         vfp = d / "build" / "VF.ttf"
@@ -80,7 +83,7 @@ def one(job):
         result = {"seed": seed, "rc": 0, "two_axes": two_axes, "masters": [], "vf": vf_bytes}
         for nm, loc in zip(names, locs):
             rc2, out2 = cli.nanoemoji(["--build_dir", d / f"static_{nm}", "--color_format", "glyf_colr_1", "--clipbox_quantization", "1", "--reuse_tolerance=-1", "--family", "VF",
-                                       "--output_file", "S.ttf", *sorted((d / nm).glob("*.svg"))], d)
+                                       "--output_file", "S.ttf", *sorted((d / (nm + sub)).glob("*.svg"))], d)
             sp = d / f"static_{nm}" / "S.ttf"
             if rc2 != 0:
                 return {"seed": seed, "rc": rc2, "tail": out2[-400:], "static": nm}
@@ -203,7 +206,7 @@ def compare(ctx, res, r):
 
 
 def suite(ctx, res, n):
-    jobs = [(ctx.rng.getrandbits(32) * 2 + (i % 2),) for i in range(n)]   # odd seeds: non-integer master positions
+    jobs = [(ctx.rng.getrandbits(32) * 2 + (i % 2), i % 4 in (0, 3)) for i in range(n)]   # odd seeds: non-integer master positions
     with ThreadPoolExecutor(max_workers=6) as ex:
         results = list(ex.map(one, jobs))
     for r in results:
